@@ -97,7 +97,15 @@ func prelude(cfg c06Cfg) *iavl.MutableTree {
 // read back sequentially through every read path and must have exactly its contents - a reader that raced with
 // the commit must not have left stale entries in the shared caches.
 func epilogue(r *rec, t *iavl.MutableTree, contents map[int64]map[string]string) {
-	for ver, content := range contents {
+	// sorted order: the epilogue also runs inside a controlled thread (H8), where a random map order would make
+	// the same schedule prefix replay differently
+	vers := make([]int64, 0, len(contents))
+	for ver := range contents {
+		vers = append(vers, ver)
+	}
+	sort.Slice(vers, func(i, j int) bool { return vers[i] < vers[j] })
+	for _, ver := range vers {
+		content := contents[ver]
 		it, err := t.GetImmutable(ver)
 		if err != nil {
 			r.add("epilogue: GetImmutable(%d): %v", ver, err)
@@ -582,6 +590,43 @@ func runSchedule(h harness, cfg c06Cfg, prefix []int32) (execTrace, string) {
 	copy(tr.runnerOK, vrt.RunnerOK[:n])
 	copy(tr.tids, vrt.ChosenTid[:n])
 	if vrt.Diverged {
+		if os.Getenv("VERIF_C06_DEBUG_DIVERGE") == "1" {
+			type snap struct {
+				nen, tid, kind, th []int32
+				where              []string
+			}
+			take := func() snap {
+				n := int(vrt.NPoints)
+				return snap{append([]int32{}, vrt.NEnabled[:n]...), append([]int32{}, vrt.ChosenTid[:n]...), append([]int32{}, vrt.PointKind[:n]...), append([]int32{}, vrt.PointThread[:n]...), nil}
+			}
+			var snaps []snap
+			snaps = append(snaps, take())
+			for k := 1; k <= 5; k++ {
+				obsCur = obsCur[:0]
+				b2, _ := h.build(cfg)
+				vrt.Run(b2, prefix)
+				snaps = append(snaps, take())
+			}
+			for k := 1; k < len(snaps); k++ {
+				a, b := snaps[0], snaps[k]
+				i := 0
+				for i < len(a.nen) && i < len(b.nen) && a.nen[i] == b.nen[i] && a.tid[i] == b.tid[i] && a.kind[i] == b.kind[i] {
+					i++
+				}
+				lo := i - 6
+				if lo < 0 {
+					lo = 0
+				}
+				hi := i + 3
+				fmt.Fprintf(os.Stderr, "run0 vs run%d: first difference at point %d (len %d vs %d)\n", k, i, len(a.nen), len(b.nen))
+				if i < len(a.nen) && i < len(b.nen) {
+					for j := lo; j <= hi && j < len(a.nen) && j < len(b.nen); j++ {
+						fmt.Fprintf(os.Stderr, "   point %d: run0 thread %d kind %d nen %d -> tid %d | run%d thread %d kind %d nen %d -> tid %d\n", j, a.th[j], a.kind[j], a.nen[j], a.tid[j], k, b.th[j], b.kind[j], b.nen[j], b.tid[j])
+					}
+				}
+			}
+			os.Exit(5)
+		}
 		return tr, "MACHINERY: replay of the schedule prefix diverged"
 	}
 	return tr, check()
@@ -594,6 +639,7 @@ type schedStats struct {
 	Violations []schedViolation  `json:"violations"`
 	Races      map[string]string `json:"races"` // signature -> first schedule
 	Switches   int               `json:"executions_with_a_preemption"`
+	Incomplete bool              `json:"incomplete"` // the deadline ended the exploration of this shard
 	// Observed: what the threads saw (not a verdict): distinct values show that the schedules really differ
 	Observed map[string]int `json:"observed"`
 }
@@ -627,7 +673,18 @@ func raceLogSize() int64 {
 	return total
 }
 
+// schedDeadline (worker processes): unix seconds after which the exploration stops (0 = none).
+var schedDeadline = func() int64 {
+	var d int64
+	fmt.Sscan(os.Getenv("VERIF_C06_DEADLINE"), &d)
+	return d
+}()
+
 func exploreSched(h harness, cfg c06Cfg, bound int, prefix []int32, st *schedStats, shard, nshards int, top bool) {
+	if schedDeadline > 0 && time.Now().Unix() > schedDeadline {
+		st.Incomplete = true
+		return
+	}
 	before := raceLogSize()
 	tr, bad := runSchedule(h, cfg, prefix)
 	if !top || shard == 0 {
@@ -756,6 +813,7 @@ func init() {
 			race   bool
 		}
 		var jobs []job
+		diverged := 0
 		skipped := []string{}
 		for hi := range hs {
 			if only := os.Getenv("VERIF_C06_ONLY"); only != "" && !strings.HasPrefix(hs[hi].name, only) {
@@ -837,7 +895,7 @@ func init() {
 					return
 				}
 				cmd := exec.Command(tk.bin, "C06worker", fmt.Sprint(j.hi), fmt.Sprint(j.ci), fmt.Sprint(tk.b), fmt.Sprint(tk.k), fmt.Sprint(tk.n))
-				cmd.Env = append(os.Environ(), "GOMAXPROCS=2")
+				cmd.Env = append(os.Environ(), "GOMAXPROCS=2", fmt.Sprintf("VERIF_C06_DEADLINE=%d", c.Deadline.Unix()))
 				if j.race {
 					cmd.Env = append(cmd.Env, "GORACE=halt_on_error=0 exitcode=0 log_path="+tk.logp, "VERIF_RACE_LOG="+tk.logp)
 				}
@@ -878,6 +936,9 @@ func init() {
 				continue
 			}
 			agg := &aggs[r.ji]
+			if r.st.Incomplete {
+				exhaustive = false
+			}
 			agg.Execs += r.st.Execs
 			if r.st.MaxPoints > agg.MaxPoints {
 				agg.MaxPoints = r.st.MaxPoints
@@ -908,6 +969,13 @@ func init() {
 			}
 			// result oracle
 			for _, v := range agg.Violations {
+				if strings.HasPrefix(v.What, "MACHINERY:") {
+					// the same choice prefix did not reproduce the same execution (nondeterminism that the
+					// scheduler does not own): the execution is discarded, counted, and the run is not exhaustive
+					diverged++
+					exhaustive = false
+					continue
+				}
 				text := fmt.Sprintf("%s cache=%d fast=%v cold=%v schedule(thread order)=%v: %s", v.Harness, v.Cfg.Cache, v.Cfg.Fast, v.Cfg.Cold, v.Threads, v.What)
 				if id := c.KF.MatchRaw("C06", text); id != "" {
 					c.KF.NoteRaw(id, text)
@@ -943,7 +1011,7 @@ func init() {
 		sort.Strings(sigs)
 		res.States, res.Transitions = total.Execs, total.Execs
 		res.Exhaustive = &exhaustive
-		res.Extra = map[string]any{"harnesses": perHarness, "skipped_harnesses": skipped, "preemption_bound": bound, "race_signatures": sigs, "race_build": raceBin != "",
+		res.Extra = map[string]any{"harnesses": perHarness, "skipped_harnesses": skipped, "executions_discarded_because_the_replay_diverged": diverged, "preemption_bound": bound, "race_signatures": sigs, "race_build": raceBin != "",
 			"explanation_c06": "every schedule (choice sequence at lock acquisitions and storage calls) with at most the stated number of preemptions is executed on the real code; the -race build runs the same enumeration with the race detector active inside each schedule (the scheduler's hand-off uses raw futex calls from norace code and adds no happens-before edge)"}
 		res.Assumptions = []string{
 			"scheduling points: every Lock/RLock of the sync primitives used by iavl (rebuilt against the shim) and every storage call; code between two points runs atomically in the explorer (races inside such blocks are the race detector's job)",
